@@ -408,6 +408,11 @@ pub struct Contract {
     pub msg_attrs: Vec<(Kind, MsgAttr)>,
     pub methods: Vec<Method>,
     pub entry_points: bool,
+    /// `Some(i)`: contract query handlers that return `StdError` spell their error type
+    /// `GenErr<Ti>` instead (a type parameter occurring only in the error position of a
+    /// query's return type is *not* a parameter of the query message)
+    #[serde(default)]
+    pub query_err_param: Option<usize>,
 }
 
 #[derive(Clone, Debug, PartialEq, Eq, Hash, Serialize, Deserialize)]
